@@ -390,6 +390,33 @@ func doBuiltBoxes(seed uint64) {
 			}
 		}
 	}
+	// variable-length payloads at the boundaries of every length-prefixed field a constructor fills in: esds descriptor
+	// sizes (7 bits per size byte: 127/128, 16383/16384 incl. the nested descriptors' own headers), string and blob fields
+	for _, L := range []int{0, 1, 2, 5, 90, 100, 104, 105, 110, 119, 120, 126, 127, 128, 129, 200, 255, 256, 16000, 16370, 16383, 16384, 16400, 70000} {
+		cfg := make([]byte, L)
+		for i := range cfg {
+			cfg[i] = byte(17 + 3*i)
+		}
+		var e *mp4.EsdsBox
+		if p := hx.Try(func() { e = mp4.CreateEsdsBox(cfg) }); p == "" && e != nil {
+			boxCheck(e, fmt.Sprintf("CreateEsdsBox(decConfig of %d bytes)", L))
+			if L <= 16400 {
+				var se *mp4.AudioSampleEntryBox
+				if p := hx.Try(func() { se = mp4.CreateAudioSampleEntryBox("mp4a", 2, 16, 48000, e) }); p == "" && se != nil {
+					boxCheck(se, fmt.Sprintf("CreateAudioSampleEntryBox(mp4a, CreateEsdsBox(decConfig of %d bytes))", L))
+				}
+			}
+		}
+		name := strings.Repeat("n", L)
+		if L <= 300 {
+			var h *mp4.HdlrBox
+			if p := hx.Try(func() { h, _ = mp4.CreateHdlr("vide") }); p == "" && h != nil {
+				h.Name = name
+				boxCheck(h, fmt.Sprintf("CreateHdlr(vide) with Name of %d bytes", L))
+			}
+			boxCheck(mp4.CreateElng(name), fmt.Sprintf("CreateElng(language of %d bytes)", L))
+		}
+	}
 	tfhdBits := []uint32{1, 2, 8, 16, 32, 0x10000, 0x20000}
 	for m := 0; m < 128; m++ {
 		var fl uint32
